@@ -160,6 +160,20 @@ CLAIMS = {
             "custom MIR rules: truth table of a closure predicate, feasible-path must-pass-through, who-may-call, "
             "provenance of deleted paths, sibling agreement (sort/first/pop), format-argument order",
             "3/C11"),
+    "C13": ("Decides: (R1) an inventory of panic-capable sites (explicit panics/todo!, unwrap/expect, bounds/overflow/"
+            "div asserts, str range indexing) over every workspace body reachable from the four sinks' emit() in the call "
+            "graph plus every workspace impl of sval/sval_ref/fmt/serde traits in the sinks' data code (dependency "
+            "callbacks), each discharged structurally or by an allow row with a reason; the six todo!() sites for "
+            "non-string map keys are known findings; (R1b) no thread-local RefCell borrow is held across Value::stream "
+            "(re-entrant emit); (R2) every encoder enumerates event props through Props::dedup() (one fixed defect); (R3) "
+            "every hand-written sval (label, index) pair in the OTLP encoders names a field of the vendored official "
+            "prost schema with that tag and lowerCamelCase JSON name, LABEL/INDEX stems agree (one fixed defect: "
+            "asInt/asDouble); (R4) well-known keys are lifted to their fields and not re-emitted under their own key; (R5) "
+            "the file writer's fields are begin/end balanced. Not decided: structure preservation, 128-bit/non-finite "
+            "rendering, JSON well-formedness (sval_json/sval_protobuf/value-bag), float-driven sparkline indices.",
+            "call-graph reachability + panic-site inventory on MIR, guard liveness, provenance of for_each receivers, "
+            "declarative-table cross-check (sval attributes vs prost-generated schema)",
+            "3/C13"),
 }
 
 REASONS_NOT_YET = "check not built yet (build in progress; DESIGN.md section 3 lists the planned rules)"
